@@ -52,8 +52,10 @@ FwChecks(it, e, variantOf) ==
 FwVariants == [foo |-> "Foo", bar |-> "Bar", ask |-> "Ask", poke |-> "Poke", instantiate |-> "Instantiate", migrate |-> "Migrate"]
 
 (* ---- C15 ---------------------------------------------------------------- *)
-WhereText(it, e) == [w \in SeqToSet(it.wheres) |->
-                        e.input.wheres[CHOOSE i \in 1..Len(it.wheres) : it.wheres[i] = w]]
+WhereText(it, e) == IF it.macro = "interface"
+                    THEN [w \in SeqToSet(it.wheres) |-> w.text]       \* bounds of the associated types
+                    ELSE [w \in SeqToSet(it.wheres) |->
+                             e.input.wheres[CHOOSE i \in 1..Len(it.wheres) : it.wheres[i] = w]]
 GenChecks(it, e) ==
     /\ Chk("C15", "every_alias_of_a_message_type_gives_its_parameters_in_the_types_own_order", l, ApiNamesTypesInOrder(e))
     /\ \A k \in {"instantiate", "exec", "query", "sudo"} :
